@@ -1,8 +1,9 @@
-"""tools/seedstore.py PID K RESULT_JSON — store a confirmed seeded change under seeded/<PID>-<K>/"""
+"""tools/seedstore.py PID K RESULT_JSON [SRC_DIR] [LABEL] — store a confirmed seeded change under seeded/<PID>-<LABEL><K>/"""
 import json, os, shutil, sys
 pid, k, res = sys.argv[1], sys.argv[2], json.loads(sys.argv[3])
-src = "/tmp/seed-%s-out" % pid
-dst = os.path.join(os.path.dirname(os.path.dirname(os.path.abspath(__file__))), "seeded", "%s-%s" % (pid, k))
+src = sys.argv[4] if len(sys.argv) > 4 else "/tmp/seed-%s-out" % pid
+label = sys.argv[5] if len(sys.argv) > 5 else ""
+dst = os.path.join(os.path.dirname(os.path.dirname(os.path.abspath(__file__))), "seeded", "%s-%s%s" % (pid, label, k))
 os.makedirs(dst, exist_ok=True)
 shutil.copy(os.path.join(src, "change%s.diff" % k), os.path.join(dst, "patch.diff"))
 shutil.copy(os.path.join(src, "demo%s.py" % k), os.path.join(dst, "demo.py"))
